@@ -1022,6 +1022,25 @@ def _grouping_and_pairs(ctx, chk, rule, sx, base_dict, tl, f, fn_of, where):
         chk.violation(rule, cf.where(Lo.node), "the outer loop iterates `%s`, not the whole transition list" % show(Lo.source),
                       expected="for i, ts in enumerate(%s)" % f.params[0], found=norm_stmt(Lo.node), construct="core outer loop")
         return
+    oacc = ("acc", Lo.id, ov)
+    if oup[0] == "cat" and oup[1] == oacc and oup[2][0] == "compr" and Lo.enumerated and not Lo.has_break and not Lo.has_return:
+        # `pairs.extend((t, s) for ... )` per state: follow the generator back to the state's transitions
+        chain = [sx.loops[oup[2][1]]]
+        src_t = chain[0].source
+        while src_t[0] == "compr" and src_t[1] in sx.loops:
+            chain.append(sx.loops[src_t[1]])
+            src_t = chain[-1].source
+        via_set = [L for L in chain[1:] if L.ckind in ("set", "dict")] or (src_t[0] == "call" and src_t[1] in ("set", "frozenset"))
+        if via_set and (src_t == ("elem", Lo.id) or (src_t[0] == "call" and src_t[2] and src_t[2][0] == ("elem", Lo.id))):
+            chk.violation(rule, cf.where(Lo.node), "the targets of a state pass through a set before the pairs are made: two transitions of one state to the same target give ONE reversed "
+                          "pair (multiplicity lost), and the order of the pairs is no longer the transition order", expected="one (target, source) pair per transition, in transition order",
+                          found=norm_stmt(Lo.node)[:100], construct="core pairs through a set")
+            return
+        Lc = chain[0]
+        if len(chain) == 1 and src_t == ("elem", Lo.id) and Lc.whole and not Lc.filters and Lo.source == tl and Lo.whole \
+                and Lc.elt == ("tup", (simp(("idx", ("elem", Lc.id), C(1))), ("pos", Lo.id))) and Lo.init.get(ov) == ("list", ()):
+            chk.ok(rule, cf.where(Lo.node), "pairs: for every state index s (enumerate, whole list) the pairs (t, s) of all its transitions are appended in one go; no filter")
+            return
     if oup[0] != "res" or not Lo.enumerated:
         chk.undecided(rule, cf.where(Lo.node), "outer loop of the pair construction not recognised (needs enumerate + inner loop): %s" % show(oup))
         return
